@@ -5,7 +5,7 @@ import "time"
 func init() {
 	props = append(props, prop{
 		ID: "C10", Title: "HTTP exchanges end to end: one answer per request, in order, isolated", Level: "exploration",
-		Rule: "case = one started nbhttp.Engine in a cell of IOMod {NonBlocking, Blocking, Mixed} x {plain, TLS} x {LT, ET, ONESHOT} (all 18 enumerated) serving 1-64 concurrent connections of independent clients: a raw pipelining client (1-16 requests written back-to-back over net.Conn / crypto/tls, then the responses read with http.ReadResponse; HTTP/1.0 and 1.1, Connection close / keep-alive spellings, GET and POST with Content-Length or chunked bodies of 0 B - 1 MiB, responses of 0 B - 1 MiB written by the handler in 1-5 pieces with or without Content-Length, handler-side and client-side mid-stream closes, requests pipelined behind a dictated close) and net/http.Transport with keep-alive; plus cases that drive nbhttp's own Client.Do (pooled) and ClientConn.Do (pipelined, FIFO) against an nbhttp server of the cell and against a net/http server, with handler-side closes and ClientConn.Close racing pending requests; plus a handful of cases for the close-with-backlog shape (8-24 MiB response to a close-dictating request, reader starting 200-600 ms late, with a keep-alive control). Every exchange has a process-unique id; request and response bodies are the id-keyed 16-byte-cell pattern, so any byte of another exchange is recognised and attributed. Monitors: response i carries request i's id and exactly the expected body; one response per request unless a close was dictated / requested; EOF and nothing else after a close-dictating exchange, no answer to requests behind it; the next batch on the same connection succeeds otherwise; per (connection) an atomic inside-counter (handlers never overlap) and strictly increasing request sequence at handler entry; request bodies arrive intact; each client callback exactly once with the response carrying its own id or an error, checked after the client was closed. Missing responses / EOFs / callbacks are decided in a final history (all progress counters flat, no workload sleep pending, process CPU < 2 % over >= 30 samples / 3 s), hangs by h.Guard; read deadlines are 120 s watchdogs whose firing is inconclusive. seeded Gosched/us delays at execute.afterAppend / execute.afterJob in half of the cases. evaluations = cases; a case is non-trivial only if it raised nothing, was decided without the quiescence fallback and completed >= 1 connection with >= 2 exchanges (raw: >= 2 responses verified on one connection; net/http: a reused connection; ClientConn: >= 2 pipelined callbacks with their own responses); distinct by case index",
+		Rule: "case = one started nbhttp.Engine in a cell of IOMod {NonBlocking, Blocking, Mixed} x {plain, TLS} x {LT, ET, ONESHOT} (all 18 enumerated) serving 1-64 concurrent connections of independent clients: a raw pipelining client (1-16 requests written back-to-back over net.Conn / crypto/tls, then the responses read with http.ReadResponse; HTTP/1.0 and 1.1, Connection close / keep-alive spellings, GET and POST with Content-Length or chunked bodies of 0 B - 1 MiB, responses of 0 B - 1 MiB written by the handler in 1-5 pieces with or without Content-Length, handler-side and client-side mid-stream closes, requests pipelined behind a dictated close) and net/http.Transport with keep-alive; plus cases that drive nbhttp's own Client.Do (pooled) and ClientConn.Do (pipelined, FIFO) against an nbhttp server of the cell and against a net/http server, with handler-side closes and ClientConn.Close racing pending requests; plus a handful of cases for the close-with-backlog shape (8-24 MiB response to a close-dictating request, reader starting 200-600 ms late, with a keep-alive control). Every exchange has a process-unique id; request and response bodies are the id-keyed 16-byte-cell pattern, so any byte of another exchange is recognised and attributed. Monitors: response i carries request i's id and exactly the expected body; one response per request unless a close was dictated / requested; EOF and nothing else after a close-dictating exchange, no answer to requests behind it; the next batch on the same connection succeeds otherwise; per (connection) an atomic inside-counter (handlers never overlap) and strictly increasing request sequence at handler entry; request bodies arrive intact; each client callback exactly once with the response carrying its own id or an error, checked after every issuer returned, the clients were closed, the configured Timeout expired and the history went quiet (most TLS client cases pin the client to TLS 1.2: with TLS 1.3 nbhttp's https client completes no exchange in this tree). A failed net/http request is counted and reported inconclusive, not alarmed (net/http hides the connection; the raw client asserts the same clauses). Phase chunked runs the response writer's multi-write chunk path (no Content-Length, > 60000 bytes) in its own processes with one collapsed signature. Missing responses / EOFs / callbacks are decided in a final history (all progress counters flat, no workload sleep pending, process CPU < 2 % over >= 30 samples / 3 s), hangs by h.Guard; read deadlines are 120 s watchdogs whose firing is inconclusive. seeded Gosched/us delays at execute.afterAppend / execute.afterJob in half of the cases. evaluations = cases; a case is non-trivial only if it raised nothing, was decided without the quiescence fallback and completed >= 1 connection with >= 2 exchanges (raw: >= 2 responses verified on one connection; net/http: a reused connection; ClientConn: >= 2 pipelined callbacks with their own responses); distinct by case index",
 		Assumptions: append([]string{
 			"the kernel may discard in-flight data when a connection is closed abortively at the harness's own request (handler closes the connection, requests pipelined behind a dictated close): responses lost that way are counted, not alarmed",
 			"net/http's client, http.ReadResponse and crypto/tls are trusted as independent observers",
